@@ -351,7 +351,7 @@ def _worker(arg):
     from vf.common import repo_on_path; repo_on_path()
     import warnings; warnings.filterwarnings('ignore')
     from vf.rtc import catalogue
-    cid, f = catalogue.builders(tier, seed)[idx]
+    cid, f = (catalogue.builders(tier, seed) + catalogue.interstitial_extras(tier, seed))[idx]
     e = f()
     t = time.time()
     try:
@@ -374,7 +374,7 @@ def run_all(rep, tier, prefix, procs=12):
     import multiprocessing as mp
     from vf.common import SEED
     from vf.rtc import catalogue
-    n = len(catalogue.builders(tier, SEED))
+    n = len(catalogue.builders(tier, SEED)) + len(catalogue.interstitial_extras(tier, SEED))
     with mp.get_context('fork').Pool(min(procs, n)) as pool:
         res = pool.map(_worker, [(i, tier, SEED) for i in range(n)], chunksize=1)
     fq = 'onsager/OnsagerCalc.py::Interstitial.diffusivity'
